@@ -568,8 +568,8 @@ class RouterAnalysis:
 
     # ---- C11 ---------------------------------------------------------------------------------------------------------------------------------
     def concurrent_rules(self):
-        import C15 as c15
-        F = self.facts
+        import C15 as c15, roles
+        F = roles.subject_canonical(self.facts, self.rep)
         eng, roots = c15.collect(F, self.rep)
         from lockset import protecting
         CSR = 'tulz::ConcurrentSubjectRouter'
